@@ -25,6 +25,10 @@ CHECKS = {
    technique="runtime monitoring: offline checker over recorded encode histories, each run in a forked child, against fresh-interpreter baselines",
    text="Histories of prior operations (construct / encode / encode twice / failing encode) over a 16-document pool, with and without sharing equal-valued component objects, are executed on the real library; the target's string must equal the string a fresh interpreter produces for the same spec, a second encode must equal the first, DataFrames must be unchanged and the colour context empty after every encode. All histories of length <=1 (quick) / <=2 (thorough) are enumerated, longer ones sampled.",
    note="trusted: a fresh `python -c` interpreter as the reference; os.fork isolation of histories (watchdog -> inconclusive)"),
+ "C15": dict(cat="exploration", ref="5/C15",
+   technique="runtime monitoring under a deterministic sys.monitoring baton scheduler: systematic enumeration of single-preemption thread schedules at library call boundaries, sampled deeper schedules",
+   text="Threads encode different coloured documents under a scheduler that preempts a thread at a chosen library function-call boundary and hands the baton to a chosen thread; every single-preemption schedule of the listed document pairs is executed (both directions), plus sampled schedules with 2-4 preemptions and 3 threads. Each thread's string must equal its solo string. Evidence reports schedules run, preemptions actually taken, distinct preemption sites and distinct interleavings of the colour-state operations observed.",
+   note="granularity: Python function entries inside src/rtflite; one preemption exhaustive, more sampled; CPython 3.12 sys.monitoring trusted"),
  "C16": dict(cat="exploration", ref="5/C16",
    technique="runtime monitoring: picture destinations of the parsed output compared with the generated image files",
    text="Generated PNG/JPEG/EMF files (arbitrary dimensions in their headers, payload lengths around the hex line wrap) are embedded by the real library; the parsed picture payload must equal the file bytes, with the format's blip word, the pixel size from the image header, the configured display size per position (last value reused) and captions on exactly the selected pages.",
